@@ -2,7 +2,7 @@
 from .. import core, extract
 from ..core import Suite, onat, b01, ohx
 
-LEAN_TARGETS = ['Uds.Props.C06', 'Uds.Props.C06Call', 'Uds.Props.CallUnify', 'Uds.Tie.Tables']
+LEAN_TARGETS = ['Uds.Props.C06', 'Uds.Props.C06Call', 'Uds.Props.CallUnify', 'Uds.Props.C06Hist', 'Uds.Tie.Tables']
 ASSUMPTIONS = [
     'the request frame of each call is taken from the real client (request construction is modelled under C01); '
     'the model covers send_request and the decorator',
